@@ -30,7 +30,7 @@ TRUSTED = [
 RES = 1e-3
 
 
-def freqs_for(case, rng):
+def freqs_for(case, rng, RES=1e-3):
     ws = set()
     for c in case['components']:
         p = c['params']
@@ -73,7 +73,7 @@ def kind_cases(rng, quick):
     return out
 
 
-def compare_expected(case, w, impl):
+def compare_expected(case, w, impl, res=RES):
     """independent declarative reading vs implementation network.  Returns list of (key, what)."""
     bad = []
     comps = [c for c in case['components'] if c['kind'] != 'ground']
@@ -85,7 +85,7 @@ def compare_expected(case, w, impl):
                     f'valid circuit: {impl.get("stage")} raised {impl["exc"]}: {impl.get("msg", "")}'))
         return bad
     net = impl['net']
-    exp = circgen.expected_network(case, w, RES)
+    exp = circgen.expected_network(case, w, res)
     if net['zero'] != exp['zero']:
         bad.append(('C07:wrong-reference-node', f'reference {net["zero"]!r}, expected {exp["zero"]!r}'))
     ids_i = [b['id'] for b in net['branches']]
@@ -125,10 +125,11 @@ def compare_expected(case, w, impl):
 
 
 def examine(ctx, jobs):
-    """jobs: list of (origin, case, w)"""
+    """jobs: list of (origin, case, w) or (origin, case, w, res, via_list)"""
+    jobs = [j if len(j) == 5 else (j[0], j[1], j[2], RES, False) for j in jobs]
     impls, mjobs, idx = [], [], []
-    for k, (origin, case, w) in enumerate(jobs):
-        impl, comps = circrun.impl_transform(case, w, RES)
+    for k, (origin, case, w, res, via) in enumerate(jobs):
+        impl, comps = circrun.impl_transform(case, w, res, via)
         impls.append(impl)
         if comps is None:
             try:
@@ -136,32 +137,34 @@ def examine(ctx, jobs):
             except Exception:  # noqa: BLE001 - a component constructor refused: C19's business
                 comps = None
         if comps is not None:
-            mjobs.append((case, comps, w, RES))
+            mjobs.append((case, comps, w, res))
             idx.append(k)
     models = dict(zip(idx, circrun.model_transform(mjobs)))
-    for k, (origin, case, w) in enumerate(jobs):
+    for k, (origin, case, w, res, via) in enumerate(jobs):
         impl = impls[k]
         ctx.evaluations += 1
         ctx.count('stream:' + origin)
         ctx.count('impl:' + (impl.get('exc') or 'returned'))
+        ctx.count('resolution:' + ('default' if res == RES else 'other'))
+        ctx.count('entry:' + ('transform(list)' if via else 'transform_circuit'))
         for c in case['components']:
             ctx.count('kind:' + c['kind'])
         if k in models:
             d = trfrun.compare_networks(impl, models[k])
             if d:
                 ctx.disagreements.append((case, w))
-                ctx.violation('correspondence:C07-transform_circuit', f'model and implementation disagree at w={w}: {d}',
-                              {'circuit': case, 'w': w, 'disagreement': d}, kind='obligation')
-        for key, what in compare_expected(case, w, impl):
+                ctx.violation('correspondence:C07-transform_circuit', f'model and implementation disagree at w={w}, resolution={res}: {d}',
+                              {'circuit': case, 'w': w, 'res': res, 'via_list': via, 'disagreement': d}, kind='obligation')
+        for key, what in compare_expected(case, w, impl, res):
             def pred(cc, key=key):
-                i2, _ = circrun.impl_transform(cc, w, RES)
-                return any(k2 == key for k2, _ in compare_expected(cc, w, i2))
+                i2, _ = circrun.impl_transform(cc, w, res, via)
+                return any(k2 == key for k2, _ in compare_expected(cc, w, i2, res))
             small = shrink_circuit(case, pred)
-            ctx.violation(key, what, {'circuit': small, 'w': w})
+            ctx.violation(key, what, {'circuit': small, 'w': w, 'res': res, 'via_list': via})
         kinds = sorted({c['kind'] for c in case['components']})
         if len(case['components']) >= 2 and any(k_.endswith('source') for k_ in kinds):
-            ctx.nontriv([[(c['kind'], c['nodes'], sorted(c['params'].items(), key=str)) for c in case['components']], w])
-        ctx.sample({'circuit': case, 'w': w, 'impl': str(impl)[:300]}, cap=3)
+            ctx.nontriv([[(c['kind'], c['nodes'], sorted(c['params'].items(), key=str)) for c in case['components']], w, res])
+        ctx.sample({'circuit': case, 'w': w, 'res': res, 'impl': str(impl)[:300]}, cap=3)
 
 
 def shrink_circuit(case, pred, max_steps=60):
@@ -197,6 +200,14 @@ def gen_jobs(ctx):
         fs = freqs_for(case, rng)
         for w in rng.sample(fs, min(len(fs), 2 if quick else 4)):
             jobs.append(('random', case, w))
+        # other frequency resolutions, through both entry points (dyadic resolutions keep the float subtraction exact)
+        res = rng.choice([0.5, 0.25, 2.0 ** -20, 0.125, 2.0])
+        w0s = [c['params']['w'] for c in case['components'] if c['kind'].startswith('periodic')]
+        if any(w0 <= 8 * res for w0 in w0s):
+            res = 2.0 ** -20      # a resolution above w0/2 makes every frequency "a harmonic"; rounding ties of w/w0 are not modelled
+        fs = freqs_for(case, rng, res)
+        for w in rng.sample(fs, min(len(fs), 2 if quick else 4)):
+            jobs.append(('random-resolution', case, w, res, rng.random() < 0.6))
     return jobs
 
 
@@ -213,5 +224,5 @@ def replay(ctx, obj):
     ctx.trusted = TRUSTED
     if standard_prologue(ctx):
         c = obj['case']
-        examine(ctx, [('replay', c['circuit'], c['w'])])
+        examine(ctx, [('replay', c['circuit'], c['w'], c.get('res', RES), c.get('via_list', False))])
     return RULE
